@@ -71,7 +71,8 @@ P('C04', 'other',
 
 P('C05', 'other',
   ['cross._func_eval.nocache', 'cross._func_eval.cache', 'utils._info_appr', 'utils._maxvol', 'cross._func.--', 'cross._func.r-', 'cross._func.-c', 'cross._func.rc',
-   'cross.cross.nocache.nocb', 'cross.cross.cache.nocb', 'cross.cross.nocache.cb', 'cross.cross.cache.cb'], 30,
+   'cross.cross.nocache.nocb', 'cross.cross.cache.nocb', 'cross.cross.nocache.cb', 'cross.cross.cache.cb',
+   'cross._iter.ltr.I', 'cross._iter.ltr.none', 'cross._iter.rtl.I', 'cross._iter.rtl.none', 'cross.cross.shapes'], 30,
   ['L-CROSS (cross interpolation of an exact rank-rho tensor on nonsingular intersections is exact)'],
   'Contract-based: _func_eval in both modes (budget/None checks, counters, cache invariant: only evaluated rows enter the cache, '
   'info[m]+info[m_cache] grows by the number of requested rows), _info_appr stop priority. Bounded only: reproduction of exact '
@@ -81,7 +82,8 @@ P('C05', 'other',
 
 P('C06', 'other',
   ['utils._info_appr', 'cross._func_eval.nocache', 'cross._func_eval.cache', 'cross.cross.validate', 'cross._func.--', 'cross._func.r-',
-   'cross._func.-c', 'cross._func.rc', 'cross.cross.nocache.nocb', 'cross.cross.cache.nocb', 'cross.cross.nocache.cb', 'cross.cross.cache.cb'], 40,
+   'cross._func.-c', 'cross._func.rc', 'cross.cross.nocache.nocb', 'cross.cross.cache.nocb', 'cross.cross.nocache.cb', 'cross.cross.cache.cb',
+   'utils._maxvol', 'cross._iter.ltr.I', 'cross._iter.ltr.none', 'cross._iter.rtl.I', 'cross._iter.rtl.none', 'cross.cross.shapes'], 40,
   [],
   'Contract-based (all inputs, all paths): _func_eval: the objective is consulted iff the batch fits the budget, stop=\'m\' iff not '
   'consulted, stop=\'func\' iff it returned None, counters change only after a successful call, total rows asked never exceed m; '
